@@ -1,6 +1,7 @@
 package main
 
 import (
+	"path/filepath"
 	"fmt"
 	"go/ast"
 	"go/token"
@@ -53,47 +54,75 @@ var c01ConstSpecs = []constSpec{
 
 func init() { register(genC01) }
 
-// c01ChunkLimit: in readObjectValue, the constant the accumulated hash bytes are compared with (`b.Len() > K`).
+// c01ChunkLimit: in readObjectValue — or, when that name is gone, in whichever function of package pkg/rdb holds it — the
+// constant the accumulated hash bytes are compared with (`b.Len() > K`). The span of K (file, byte offsets, text) is
+// written to c01_chunklimit.pos for the scaled harness build (N3).
 func c01ChunkLimit() int64 {
 	rel := "pkg/rdb/reader.go"
-	fd := funcDecl(rel, "rdbReader", "readObjectValue")
-	if fd == nil {
-		fail("%s: readObjectValue not found", rel)
-		return 0
-	}
-	env := fileConsts(parse(rel))
 	var found []int64
 	var spans []string
-	ast.Inspect(fd, func(n ast.Node) bool {
-		be, ok := n.(*ast.BinaryExpr)
-		if !ok {
-			return true
-		}
-		var side ast.Expr
-		switch {
-		case (be.Op == token.GTR || be.Op == token.GEQ) && isLenCall(be.X):
-			side = be.Y
-		case (be.Op == token.LSS || be.Op == token.LEQ) && isLenCall(be.Y):
-			side = be.X
-		default:
-			return true
-		}
-		if v, ok := evalInt(side, env); ok {
-			if be.Op == token.GEQ || be.Op == token.LEQ {
-				v-- // `>= K` is `> K-1`
+	scan := func(file string, fd *ast.FuncDecl) {
+		ast.Inspect(fd, func(n ast.Node) bool {
+			be, ok := n.(*ast.BinaryExpr)
+			if !ok {
+				return true
 			}
-			found = append(found, v)
-			spans = append(spans, fmt.Sprintf("%d %d %s", fset.Position(side.Pos()).Offset, fset.Position(side.End()).Offset, strings.Join(strings.Fields(srcOf(side)), "")))
+			var side ast.Expr
+			switch {
+			case (be.Op == token.GTR || be.Op == token.GEQ) && isLenCall(be.X):
+				side = be.Y
+			case (be.Op == token.LSS || be.Op == token.LEQ) && isLenCall(be.Y):
+				side = be.X
+			default:
+				return true
+			}
+			if v, ok := evalInt(side, nil); ok && v >= 1024 {
+				if be.Op == token.GEQ || be.Op == token.LEQ {
+					v-- // `>= K` is `> K-1`
+				}
+				found = append(found, v)
+				spans = append(spans, fmt.Sprintf("%d %d %s %s", fset.Position(side.Pos()).Offset, fset.Position(side.End()).Offset,
+					strings.Join(strings.Fields(srcOf(side)), ""), file))
+			}
+			return true
+		})
+	}
+	if fd := funcDecl(rel, "rdbReader", "readObjectValue"); fd != nil {
+		scan(fset.Position(fd.Pos()).Filename, fd)
+	} else {
+		for _, file := range pkgFiles(filepath.Dir(rel)) {
+			f := parseQuiet(file)
+			if f == nil {
+				continue
+			}
+			for _, d := range f.Decls {
+				if fd, ok := d.(*ast.FuncDecl); ok && fd.Body != nil {
+					funcDecl(file, recvName(fd), fd.Name.Name) // constants context of that function
+					scan(filepath.Join(repo, file), fd)
+				}
+			}
 		}
-		return true
-	})
+	}
 	if len(found) != 1 {
-		fail("%s: readObjectValue: expected exactly one `….Len() > <constant>` comparison, found %d", rel, len(found))
+		fail("%s: expected exactly one `….Len() > <constant>` comparison (the hash chunk limit), found %d", rel, len(found))
 		return 0
 	}
-	// where the expression stands in the file: the scaled harness build (N3) replaces exactly these bytes
 	writeIfChanged("c01_chunklimit.pos", spans[0]+"\n")
 	return found[0]
+}
+
+func recvName(fd *ast.FuncDecl) string {
+	if fd.Recv == nil || len(fd.Recv.List) != 1 {
+		return ""
+	}
+	t := fd.Recv.List[0].Type
+	if st, ok := t.(*ast.StarExpr); ok {
+		t = st.X
+	}
+	if id, ok := t.(*ast.Ident); ok {
+		return id.Name
+	}
+	return ""
 }
 
 func isLenCall(e ast.Expr) bool {
